@@ -32,6 +32,7 @@ type Check struct {
 	ID     string
 	Level  string
 	Probes bool
+	Random func(tier string) int // number of TLC-simulated random schemas to add to the corpus
 	Run    func(c *Ctx)
 }
 
@@ -101,7 +102,19 @@ func runCheck(id, tier string, seed int64) int {
 	}
 	r := NewResult(id, ck.Level, tier, seed)
 	c := &Ctx{Tier: tier, Seed: seed, R: r}
-	s, err := NewScratch(ck.Probes, "")
+	extra := ""
+	if ck.Random != nil {
+		if n := ck.Random(tier); n > 0 {
+			tmp, _ := os.MkdirTemp(os.Getenv("VERIF_TMP"), "verif-rnd-")
+			defer os.RemoveAll(tmp)
+			p, errs, err := randomSchemas(n, seed, tmp)
+			if err != nil || len(errs) > 0 {
+				r.InternalErr("random schemas: %v %v", err, errs)
+			}
+			extra = p
+		}
+	}
+	s, err := NewScratch(ck.Probes, extra)
 	defer s.Close()
 	if err != nil {
 		r.InternalErr("scratch build failed: %v", err)
